@@ -2,3 +2,4 @@ pub mod core;
 pub mod model;
 pub mod gen;
 pub mod props;
+pub mod fuzz;
